@@ -364,6 +364,30 @@ pub fn c03(opts: &Opts, out: &mut Out) {
         }
         shapes.insert((2, "same-statement", bi));
     }
+    // one very large aggregate among many small members (an implementation may size its chunks by the largest
+    // statement): every member is still examined and answered, wherever the large one stands
+    {
+        let t0 = std::time::Instant::now();
+        let (nb, mb) = if opts.thorough { (64usize, 256usize) } else { (64, 128) };
+        let big = make_valid(nb, mb, mb, 1, false, 0, &mut rng);
+        let small = make_valid(nb, 1, 1, 1, false, 0, &mut rng);
+        let small_seeded = make_valid(nb, 1, 1, 1, true, 0, &mut rng);
+        let small_bad = make_invalid(&small, 1);
+        for k in [130usize, 300] {
+            for big_pos in [0usize, k / 2] {
+                for last in [&small_seeded, &small_bad] {
+                    let mut ms: Vec<&Tmpl> = vec![&small; k];
+                    ms[big_pos] = &big;
+                    ms[k - 1] = last;
+                    for a in [VerifyAction::RecoverAndVerify, VerifyAction::VerifyOnly] {
+                        check_batch(out, "C03", &format!("huge-aggregate@{}", big_pos), &ms, k, k, a);
+                    }
+                }
+            }
+            shapes.insert((k, "huge-aggregate", 0));
+        }
+        out.stat("huge_aggregate_ms", t0.elapsed().as_millis() as usize);
+    }
     // empty inputs
     check_batch(out, "C03", "empty", &[], 0, 0, VerifyAction::VerifyOnly);
     check_batch(out, "C03", "no-transcripts", &[&valid[0]], 0, 1, VerifyAction::VerifyOnly);
